@@ -55,6 +55,16 @@ claimed = {
    text="Every case is rendered to a document, validated by the library, its variables coerced by the library, and ArgumentMap of the field / directive is compared (keys and values) with the specification's CoerceArgumentValues computed from the check's own description of the case: literal (converted recursively, nested variables substituted) > variable value > argument default > absent. Panics are violations; a recorded one (out-of-range numeric literal for a custom scalar) is excused only under its exact (site, message, trigger) key.",
    note="Trusted: the check's literal model. Only validated documents and coerced variables are judged (the property's precondition). Nested variables with no value at all are undecided (keys still checked).",
    ref="DESIGN.md §4 C15"),
+ "C07": dict(
+   technique=T + "every type system = a 15-definition base + ≤3/4 of ~120 menu items (good variants and one bad variant per listed rule, incl. extensions of built-ins) and every type-system sentence ≤5/6 tokens on a minimal base; LoadSchema verdict compared with a reference rule evaluator (ref/refschema) and, on success, an invariant over the whole schema graph evaluated on every loaded schema",
+   text="For every enumerated type system the real LoadSchema must succeed exactly when ref/refschema finds no broken rule among those the property lists. Every schema that loads is walked completely: built-in scalars, directives, introspection types and fields present; every type reference, interface, union member and directive use resolves to the right kind and to the definition stored in the schema; per type, fields / enum values / directive uses equal definitions ∪ extensions; PossibleTypes and Implements equal the relations the definitions imply (no nil, pointer identity); roots equal the declared or default ones. All loads of one worker run in one process, so state leaking from one load into the next shows up as a later mismatch.",
+   note="Trusted: ref/refschema (reads only syntactic fields of the parser's output; C06 decides the parser), the kit as generator. Rules outside the property's list are not demanded and the kit does not exercise them alone.",
+   ref="DESIGN.md §4 C07"),
+ "C17": dict(
+   technique=T + "every type system = base (3 blocks) + ≤1/2 menu items (quick: plus every pair of extension items) × every permutation of its units × every cut into 1–3 named sources; differential oracle against the canonical order in one source (loadability, canonical order-insensitive schema dump) plus a file-attribution oracle from ref/refschema's involved definitions",
+   text="Each ordering × split is loaded by the real LoadSchema and compared with the canonical ordering of the same definitions: same loadability, same canonical dump (types, fields / interfaces / members / values / directive uses as sets per type, relations as sets, roots, directives). For rejected systems the error must name a source that holds a definition or extension involved in a broken rule. Extensions before their base, interfaces after implementers, unions before members and directive uses before definitions arise by construction of the permutations.",
+   note="Trusted: ref/refschema for involvement; the canonical dump walker. Units are whole definitions; the base moves as three blocks.",
+   ref="DESIGN.md §4 C17"),
 }
 checks = []
 for i in ids:
